@@ -167,7 +167,7 @@ def roundtrip_case(rep, rng, thorough, tmpdir):
 			# product-level policy objects lose their node link on reload (documented), which deep_equal_to sees; for
 			# such networks equality is judged by the independent field-wise comparison below, and the link is restored
 			# (as a user must) before simulating the reloaded copy
-			product_level_policies = kind != 'single'
+			product_level_policies = kind != 'single' or spec.get('attr_level') == 'product'
 			if not product_level_policies and not net.deep_equal_to(net2):
 				bad.append('reloaded network is not deeply equal to the original (deep_equal_to)')
 			if product_level_policies:
